@@ -7,9 +7,9 @@ each replayed scenario exists in four variants for what C18 leaves open:
 import os
 
 HERE = os.path.dirname(os.path.abspath(__file__))
-INV = "INVARIANTS TypeOK Converged LearnsLive ForgetsDead SelfListed PeriodRestored NoDuplicateAddr ChannelSane\nPROPERTIES CallbackIffChange NoResurrection\n"
+INV = "INVARIANTS TypeOK Converged LearnsLive ForgetsDead PeerForgotten PeerLearnt SelfListed PeriodRestored NoDuplicateAddr ChannelSane\nPROPERTIES CallbackIffChange NoResurrection\n"
 
-# name: (Addr, Gaps, D, MaxEvents, MaxFails)
+# name: (Addr, Gaps, D, MaxEvents, MaxFails[, Boot, CrashSet, StopSet, Sync])
 SCEN = {
     "pair_q":     ("Addr2", "GapsFixed2", 1, 3, 0),          # quick walk / quick timed model check: no publish failures
     "solo":       ("Addr1", "GapsJitter1", 1, 2, 3),         # walk: one node and its own looped-back heartbeat, up to 3 failed publishes
@@ -21,13 +21,23 @@ SCEN = {
     "pair_mc":    ("Addr2", "GapsJitter2", 2, 6, 0),         # thorough model check only: jitter, delay up to 2 ticks
     "restart_mc": ("AddrRestart", "GapsRestart", 1, 4, 0),   # thorough model check only
     "trio_mc":    ("Addr3", "GapsFixed3", 0, 4, 0),          # thorough model check only
+    # mixed histories from a running three-node cluster (a1 observes): a silent crash and a clean unregister of DIFFERENT peers in either
+    # order and at any distance, every tick and every delivery order replayed up to and past each entry's deadline
+    "mix_q":      ("Addr3", "GapsFixed3", 0, 2, 0, "BootABC", "OnlyC", "OnlyB", "FALSE"),    # quick walk + quick timed model check: c1 crashes, b1 unregisters
+    "mix_t":      ("Addr3", "GapsFixed3", 0, 2, 0, "BootABC", "SetBC", "SetBC", "FALSE"),    # thorough walk: b1/c1 crash or unregister (two crashes, two unregisters, crash+unregister of either)
+    "mix_mc":     ("Addr3", "GapsFixed3", 0, 3, 0, "BootABC", "AllNodes", "AllNodes", "FALSE"),  # thorough model check only: anybody leaves, three events (incl. the whole cluster)
+    # rolling restart while a crashed peer's entry is ageing: c1 crashes, b1 unregisters, b2 joins on b1's address and unregisters again
+    "roll":       ("AddrRoll", "GapsRoll4", 0, 4, 0, "BootABC", "OnlyC", "SetB", "TRUE"),     # thorough walk
+    "roll_mc":    ("AddrRoll", "GapsRoll", 0, 4, 0, "BootABC", "OnlyC", "SetB", "TRUE"),      # thorough model check only (unequal periods)
 }
 
 
 def consts(s, closed, cb, quiet, backoff="FALSE", extra="none"):
-    a, g, d, e, f = SCEN[s]
+    a, g, d, e, f = SCEN[s][:5]
+    boot, crash, stop, sync = SCEN[s][5:] or ("NoNodes", "AllNodes", "AllNodes", "FALSE")
     return ("CONSTANTS\n  Addr <- %s\n  Gaps <- %s\n  T = 10\n  D = %d\n  MaxEvents = %d\n  MaxFails = %d\n  Extra = \"%s\"\n  Backoff = %s\n  Closed = %s\n  ObserveCb = %s\n  TrackQuiet = %s\n  UnitMs = 1000\n"
-            % (a, g, d, e, f, extra, backoff, closed, cb, quiet))
+            "  Boot <- %s\n  CrashSet <- %s\n  StopSet <- %s\n  Sync = %s\n"
+            % (a, g, d, e, f, extra, backoff, closed, cb, quiet, boot, crash, stop, sync))
 
 
 def write(name, text):
@@ -41,20 +51,20 @@ def write(name, text):
 VARIANTS = (("c", "TRUE", "TRUE", "FALSE", "none"), ("n", "TRUE", "FALSE", "FALSE", "none"),
             ("oc", "FALSE", "TRUE", "FALSE", "none"), ("on", "FALSE", "FALSE", "FALSE", "none"),
             ("x", "TRUE", "FALSE", "TRUE", "any"), ("ox", "FALSE", "FALSE", "TRUE", "any"))
-for s in ("pair_q", "solo", "pairfail", "pair_t", "restart", "trio"):
+for s in ("pair_q", "solo", "pairfail", "pair_t", "restart", "trio", "mix_q", "mix_t", "roll"):
     for v, closed, cb, bo, ex in VARIANTS:
         # replayed graph: the quiet counter is frozen (it would only multiply the states)
         if ex == "any" and s != "solo":
             ex = "start"   # "any" multiplies the two-node graphs by 30; it is replayed for one node and model-checked for two
         write(f"MC_Peers_{s}_{v}.cfg", "SPECIFICATION Spec\n" + consts(s, closed, cb, "FALSE", bo, ex) + INV + "ACTION_CONSTRAINT Dump\nVIEW View\n")
-for s in ("pair_q", "solo", "pairfail_mc", "pair_mc", "restart_mc", "trio_mc"):
+for s in ("pair_q", "solo", "pairfail_mc", "pair_mc", "restart_mc", "trio_mc", "mix_q", "mix_mc", "roll_mc"):
     # the timed invariants on the same (or a larger) bound
     write(f"MC_Peers_{s}_timed.cfg", "SPECIFICATION Spec\n" + consts(s, "TRUE", "TRUE", "TRUE") + INV + "VIEW View\n")
 # ... and for an implementation with backoff (model check only)
 write("MC_Peers_pairfail_mc_loose_timed.cfg", "SPECIFICATION Spec\n" + consts("pairfail_mc", "TRUE", "TRUE", "TRUE", "TRUE", "start") + INV + "VIEW View\n")
 write("MC_Peers_pair_q_loose_timed.cfg", "SPECIFICATION Spec\n" + consts("pair_q", "TRUE", "TRUE", "TRUE", "TRUE", "any") + INV + "VIEW View\n")
 
-for s in ("solo", "pairfail_mc", "pair_mc", "restart_mc", "trio"):
+for s in ("solo", "pairfail_mc", "pair_mc", "restart_mc", "trio", "mix_q"):
     # liveness under fairness (no VIEW: act is part of the behaviour graph)
     write(f"MC_Peers_{s}_live.cfg", "SPECIFICATION FairSpec\n" + consts(s, "TRUE", "TRUE", "FALSE") + "INVARIANTS TypeOK\nPROPERTIES EventuallyAgreed HashCatchesUp\n")
 
